@@ -33,18 +33,21 @@ Print Assumptions C07_grid_same_types.
    table block p that the 'pdtable' form delivers (the 'jsondata' form delivers CtJson p at the same
    position, C07_json_same_blocks), converting the frame built from p - its values seen through
    list(df[col]), Json.frame_cols - with table_to_json_data gives exactly the JsonData rendered
-   from the precursor.  Two distinct routes through the code, equal for every input, every filter
-   and every fixer whose replacement values are ordinary column values (the stock ones are:
-   C07_stock_fixer). *)
+   from the precursor.  What is PROVED is that the two leaf conversions (to_json_serializable on the
+   precursor's values; on the scalars of the frame) agree value by value, for every input, filter and
+   fixer whose replacement for a cell is a value of the column's own kind (C07_stock_fixer: the stock
+   one is).  That the frame hands back exactly those scalars (Json.scalar_of_value: pandas stores the
+   parsed values and list(df[col]) returns them) is hypothesis H_frame_identity, carried by the
+   correspondence (Corr/C07.v: table_to_json_data of every real delivered table) and by the oracle. *)
 Theorem C07_json_is_table_to_json :
   forall render_dt float_repr parse_float parse_dt cfg filter raising bs hist evs fin t i p,
-    (forall vt, stock_value (fix_value cfg vt)) ->
+    (forall vt, kind_ok vt (fix_value cfg vt)) ->
     deliver parse_float parse_dt cfg FPd filter raising bs hist = (evs, fin) ->
     In (EBlock t i (CtTable p)) evs ->
     table_to_json (p_name p) (p_dests p) (frame_cols render_dt float_repr p) = Some (json_of_ptable render_dt p).
 Proof. exact forms_agree. Qed.
 Print Assumptions C07_json_is_table_to_json.
 
-Theorem C07_stock_fixer : forall vt, stock_value (stock_fix vt).
-Proof. exact stock_fix_stock. Qed.
+Theorem C07_stock_fixer : forall vt, kind_ok vt (stock_fix vt).
+Proof. exact stock_fix_kind. Qed.
 Print Assumptions C07_stock_fixer.
